@@ -150,7 +150,7 @@ var opText = map[string]string{"add": "+", "sub": "-", "mul": "*", "div": "/", "
 func (b *binop) matching() string {
 	names := make([]string, len(b.labels))
 	for i, l := range b.labels {
-		names[i] = labelName[l]
+		names[i] = labelText(l)
 	}
 	switch b.match {
 	case "on":
@@ -166,7 +166,7 @@ func (b *binop) token() string {
 	if len(b.labels) != 0 {
 		ss := make([]string, len(b.labels))
 		for i, l := range b.labels {
-			ss[i] = fmt.Sprint(l)
+			ss[i] = fmt.Sprint(labelIdx(l))
 		}
 		ls = strings.Join(ss, ".")
 	}
